@@ -77,14 +77,27 @@ Qed.
 Lemma first_record_zero_lemma v : Qeq (hours_between v v) 0.
 Proof. destruct v as [h|d h|]; cbn [hours_between]; [ring | rewrite Z.sub_diag; ring | reflexivity]. Qed.
 
-(* ---- binary64 model: when the truncating split loses nothing, the integer nanosecond difference the code holds
-   before its two final float divisions IS the calendar difference (in units of 1/3600e9 h) ---------------------- *)
-Lemma stamp_difference_exact_lemma (dn1 dn2 : Z) (tv1 tv2 : Q) :
-  split_exact tv1 = true -> split_exact tv2 = true ->
-  Qeq (inject_Z ((dn2 * 86400000000000 + ns_of_hours tv2) - (dn1 * 86400000000000 + ns_of_hours tv1)))
-      (3600000000000 * (inject_Z (dn2 - dn1) * 24 + (tv2 - tv1))).
+(* ---- binary64 model after fix a9224f5: every clock time h:m is held as exactly (h*60+m)*60e9 nanoseconds --------- *)
+Definition clock_ok (hm : nat * nat) : bool :=
+  Z.eqb (ns_of_hours (clock_hours (fst hm) (snd hm))) (Z.of_nat ((fst hm * 60 + snd hm) * 60) * 1000000000).
+
+Lemma clock_split_all : forallb clock_ok (list_prod (seq 0 24) (seq 0 60)) = true.
+Proof. vm_cast_no_check (eq_refl true). Qed.
+
+Lemma clock_split_exact_lemma (h m : nat) :
+  (h < 24)%nat -> (m < 60)%nat ->
+  ns_of_hours (clock_hours h m) = Z.of_nat ((h * 60 + m) * 60) * 1000000000.
 Proof.
-  unfold split_exact. intros H1 H2. apply Qeq_bool_iff in H1. apply Qeq_bool_iff in H2.
-  unfold Z.sub. rewrite !inject_Z_plus, !inject_Z_opp, !inject_Z_plus, !inject_Z_mult, H1, H2.
-  change (inject_Z 86400000000000) with (86400000000000 # 1). ring.
+  intros Hh Hm. pose proof clock_split_all as H. rewrite forallb_forall in H.
+  specialize (H (h, m)). apply Z.eqb_eq. apply H. apply in_prod; apply in_seq; lia.
+Qed.
+
+(* ... so the integer nanosecond difference of two Timestamps with clock times is the calendar difference *)
+Lemma stamp_difference_clock_lemma (dn1 dn2 : Z) (h1 m1 h2 m2 : nat) :
+  (h1 < 24)%nat -> (m1 < 60)%nat -> (h2 < 24)%nat -> (m2 < 60)%nat ->
+  (dn2 * 86400000000000 + ns_of_hours (clock_hours h2 m2)) - (dn1 * 86400000000000 + ns_of_hours (clock_hours h1 m1)) =
+  ((dn2 - dn1) * 1440 + (Z.of_nat (h2 * 60 + m2) - Z.of_nat (h1 * 60 + m1))) * 60000000000.
+Proof.
+  intros A B C D. rewrite (clock_split_exact_lemma h1 m1 A B), (clock_split_exact_lemma h2 m2 C D).
+  rewrite !Nat2Z.inj_mul. lia.
 Qed.
